@@ -282,6 +282,47 @@ P('C16',
   thorough=dict(cases=4000000, max_size=3000, max_seconds=1500, fuzz=dict(seconds=240, jobs=8, max_len=3000)),
   )
 
+P('C18',
+  custom='proxy.proxy_check',
+  technique='process-level property-based testing: generated schedules of 1-6 real proxy clients (connect / read / stall / service update / '
+            'reconnect / kill) against zvbid on a deterministic simulated device (select and acquisition-thread variants, ASan+UBSan, thread '
+            'variant also under TSan); reference frames recomputed from the frame number; adapter log for open/close/service union',
+  rule='case = device variant x frame period x queue depth x per-client scripts, from random.Random("seed:C18:i"). Non-trivial: at least two '
+       'connections of different clients overlap in time with different granted service sets and the case contains a stall or a service '
+       'change; distinct = SHA-1 of the case file.',
+  level_text='Generated-schedule search with explicit oracles on a multi-process system: per client strictly increasing exact timestamps, '
+             'byte-identical frames filtered to the granted services, no gap for a client that keeps up except across its own requests, stalls '
+             'of one client invisible to the others, device opened for the union and closed after the last client, daemon sanitizer-clean. The '
+             'OS schedules the processes: interleavings are sampled, not enumerated; liveness is only observed through watchdogs (inconclusive).',
+  level_note='Trusted: the sim adapter in the ZVBI_VERIF hook of daemon/proxyd.c (frame contents are a pure function of the frame number), '
+             'the granted-set model over the client API results, CLOCK_MONOTONIC across processes, 3/3 reproduction before a report. Raw VBI '
+             'forwarding, TCP/IP and norm changes are not covered. Generator exclusions for recorded findings: proxy/NOTES.md section 5.',
+  design_ref='DESIGN.md section 2, C18; proxy/NOTES.md',
+  quick=dict(cases=700, max_seconds=130),
+  thorough=dict(cases=6500, max_seconds=1080),
+  assumptions=COMMON_ASSUME + ['hook.patch applied to daemon/proxyd.c (guard ZVBI_VERIF)', 'see proxy/NOTES.md section 8'],
+  )
+
+P('C19',
+  custom='proxy.proxy_check',
+  technique='process-level fault injection and protocol fuzzing: raw clients built from the proxy-msg.h layouts (valid runs, then truncation, '
+            'header length/type out of range, boundary values per field, wrong message for the state, magic/endian/version, oversize, '
+            'pipelining, silence, abrupt close) next to witness clients under the C18 data oracle; token scenarios with library and raw '
+            'clients of all priorities; in-process fuzzing of proxy-msg.c read/write handlers over a socketpair',
+  rule='case = 1-2 witnesses + 1-4 faulty clients, or witnesses + 2-4 token clients (+ optional faulty one). Non-trivial: a faulty message was '
+       'sent on a connection that had been confirmed (it reached vbi_proxyd_take_message), or at least two clients asked for the token and '
+       'one was granted; distinct = SHA-1 of the case file.',
+  level_text='Generated fault sequences with explicit oracles: daemon alive and ASan/UBSan/LSan-clean, witnesses keep satisfying the C18 data '
+             'oracle and their connections, token hold intervals observed at the clients never overlap, grants only to clients that asked. '
+             'Sampling of byte streams and interleavings; no absence claim.',
+  level_note='Trusted: as C18, plus the soundness argument of the token oracle (grants that overtake an unanswered release-type request are '
+             'ignored). Seven defects of the message layer and token code are recorded as known findings and steered around (NOTES.md 4, 5).',
+  design_ref='DESIGN.md section 2, C19; proxy/NOTES.md',
+  quick=dict(cases=600, max_seconds=130, msgfuzz=40000),
+  thorough=dict(cases=6000, max_seconds=1080, msgfuzz=800000),
+  assumptions=COMMON_ASSUME + ['hook.patch applied to daemon/proxyd.c (guard ZVBI_VERIF)', 'see proxy/NOTES.md section 8'],
+  )
+
 NOT_YET = {}
 
 
